@@ -27,6 +27,7 @@ The real code is driven exactly the way Loader/Master drive it:
 The reference is written from the property statement (DESIGN 5/C06) with
 integers only; it never looks at the code's utilisation numbers.
 """
+import functools
 import itertools
 import logging
 import sys
@@ -126,6 +127,10 @@ NODE_MENUS = {
            [[2, 0, 2], 100, 10, 1],
            [[2, 0, 2], 50, 10, 2],
            [[2, 2, 2], 100, 10, 1]],
+    # deep-tree slices (the re-scoring merge is applied once per level):
+    # ranks {90, 100} x reservation {0, [2,2,2]}, no adjustment, no cap
+    'ND': _node_menu((90, 100), (0,), ('0', '222'), (None,)),
+    'ND2': _node_menu((90, 100), (0,), ('0',), (None,)),
     # the two capped reservations of NS (ranks 100-10 and 50)
     'N2': [[[2, 2, 2], 100, 10, 1],
            [[2, 2, 2], 50, 0, 2]],
@@ -140,11 +145,24 @@ INST_MENUS = {
     'IS': _inst_menu((0, 1, 100), (D2,)),                   # 6
     'IT': _inst_menu((0, 50), (D2,)),                       # 4
     'I3': [(0, D2, 1), (50, D2, 0), (50, D2, 1)],
+    'IZ': [(0, D2, 0), (50, D2, 0)],     # pending priority 0 / pending 50
     'I2': [(0, D2, 1), (50, D2, 0)],     # running priority 0 / pending 50
 }
 
 
-def shapes(n, max_depth=3):
+def _depth(par):
+    best = 0
+    for i in range(len(par)):
+        d = 1
+        while par[i] >= 0:
+            i = par[i]
+            d += 1
+        best = max(best, d)
+    return best
+
+
+@functools.lru_cache(maxsize=None)
+def _shapes(n, max_depth):
     """All forests of n nodes below the root, up to isomorphism, depth<=3.
 
     Returned as parent vectors (parents before children, -1 = partition root).
@@ -168,7 +186,12 @@ def shapes(n, max_depth=3):
         key = canon(par, -1)
         if key not in seen:
             seen[key] = list(par)
-    return [seen[k] for k in sorted(seen, key=lambda k: (repr(k)))]
+    return tuple(tuple(seen[k])
+                 for k in sorted(seen, key=lambda k: (repr(k))))
+
+
+def shapes(n, max_depth=3):
+    return [list(p) for p in _shapes(n, max_depth)]
 
 
 # (nodes, max instances, node menu, instance menu, min instances)
@@ -178,7 +201,7 @@ def shapes(n, max_depth=3):
 SLICES = {
     'quick': [
         (1, 2, 'NF', 'IF', 1),
-        (1, 3, 'N1', 'ID', 3),
+        (1, 3, 'N1', 'IE', 3),
         (1, 2, 'NZ', 'IF', 1),
         (1, 2, 'NP', 'IF', 1),
         (2, 2, 'N0', 'IS', 1),
@@ -188,6 +211,8 @@ SLICES = {
         (2, 3, 'NS', 'IS', 3),
         (3, 2, 'NS', 'IS', 1),
         (3, 3, 'N3R', 'I3', 3),
+        (4, 3, 'ND2', 'IZ', 1, ('upto', 4)),
+        (5, 3, 'ND2', 'IZ', 3, ('chain',)),
     ],
     'thorough': [
         (1, 3, 'NF', 'IF', 1),
@@ -209,13 +234,32 @@ SLICES = {
         (4, 2, 'NS', 'IT', 1),
         (4, 3, 'N3', 'I2', 3),
         (4, 4, 'N2', 'I2', 4),
+        (4, 3, 'ND', 'IZ', 1, ('upto', 4)),
+        (5, 3, 'ND2', 'IZ', 1, ('upto', 5)),
+        (5, 4, 'ND2', 'IZ', 4, ('list', [[-1, 0, 1, 1, -1],
+                                         [-1, 0, 1, 2, 3]])),
     ],
 }
 
 
+def slice_shapes(sl):
+    """Forest shapes of a slice: all shapes of depth <= 3 unless the slice
+    carries a sixth element ('upto', d) = all shapes of depth <= d,
+    ('chain',) = the single chain of n nodes, ('list', [...]) = as given."""
+    n = sl[0]
+    if len(sl) < 6:
+        return shapes(n)
+    spec = sl[5]
+    if spec[0] == 'upto':
+        return shapes(n, spec[1])
+    if spec[0] == 'chain':
+        return [list(range(-1, n - 1))]
+    return [list(p) for p in spec[1]]
+
+
 def slice_size(sl):
-    n, kmax, nm, im, kmin = sl
-    trees = len(shapes(n)) * len(NODE_MENUS[nm]) ** n
+    n, kmax, nm, im, kmin = sl[:5]
+    trees = len(slice_shapes(sl)) * len(NODE_MENUS[nm]) ** n
     pops = sum((n * len(INST_MENUS[im])) ** k for k in range(kmin, kmax + 1))
     return trees, pops
 
@@ -223,10 +267,12 @@ def slice_size(sl):
 def describe_slices(tier):
     out = []
     for sl in SLICES[tier]:
-        n, kmax, nm, im, kmin = sl
+        n, kmax, nm, im, kmin = sl[:5]
         trees, pops = slice_size(sl)
         out.append({
-            'nodes': n, 'shapes': shapes(n), 'instances': [kmin, kmax],
+            'nodes': n, 'shapes': slice_shapes(sl),
+            'max_depth': max(_depth(p) for p in slice_shapes(sl)),
+            'instances': [kmin, kmax],
             'node_menu': nm, 'instance_menu': im,
             'trees': trees, 'populations_per_tree': pops,
             'cases': trees * pops})
@@ -240,14 +286,14 @@ def chunks(tier, target=None):
     target = target or (4000 if tier == 'quick' else 8000)
     out = []
     for si, sl in enumerate(SLICES[tier]):
-        n, kmax, nm, im, kmin = sl
+        n, kmax, nm, im, kmin = sl[:5]
         _trees, pops = slice_size(sl)
         combos = len(NODE_MENUS[nm]) ** n
         per = max(1, target // pops)
         parts = 1
         if pops > target:
             parts = min(n * len(INST_MENUS[im]), -(-pops // target))
-        for shi in range(len(shapes(n))):
+        for shi in range(len(slice_shapes(sl))):
             lo = 0
             while lo < combos:
                 hi = min(combos, lo + per)
@@ -475,8 +521,8 @@ LEAK_EVERY = 257
 def worker(chunk):
     """Sweep every case of one chunk."""
     tier, si, shi, lo, hi, part, parts = chunk
-    n, kmax, nm, im, kmin = SLICES[tier][si]
-    parents = shapes(n)[shi]
+    n, kmax, nm, im, kmin = SLICES[tier][si][:5]
+    parents = slice_shapes(SLICES[tier][si])[shi]
     nmenu = NODE_MENUS[nm]
     imenu = INST_MENUS[im]
     inst = [(node, p, d, r) for node in range(n) for (p, d, r) in imenu]
